@@ -11,7 +11,7 @@ func registerStd(e *Engine) {
 		"(*sync.Mutex).Lock", "(*sync.Mutex).Unlock", "(*sync.RWMutex).Lock", "(*sync.RWMutex).Unlock",
 		"(*sync.RWMutex).RLock", "(*sync.RWMutex).RUnlock", "(*sync.Mutex).TryLock",
 		"(*sync.WaitGroup).Add", "(*sync.WaitGroup).Done", "(*sync.WaitGroup).Wait",
-		"runtime.KeepAlive", "runtime.GC", "os.Exit",
+		"runtime.KeepAlive", "runtime.GC", "os.Exit", "os.Getenv", "os.LookupEnv", "os.Setenv",
 	}
 	for _, n := range noop {
 		e.AddRule(n, ruleNoop)
